@@ -422,7 +422,7 @@ Lemma istate_matches_facts t tm st o : istate_matches t tm st o = true ->
 Proof. unfold istate_matches. intros H. split_andb H. split; assumption. Qed.
 
 Definition ev_l1_wf (e : oevent) : Prop :=
-  match e with OMarket _ (OML1 t lt _ _) => lt = t | _ => True end.
+  match e with OMarket _ _ (OML1 t lt _ _) => lt = t | _ => True end.
 Definition ev_fill_wf (e : oevent) : Prop :=
   match e with OFill f => 0 < of_qty f | _ => True end.
 
@@ -432,7 +432,7 @@ Lemma step_link15 (indep : bool) t tm tr s sp e o :
   GJ indep tr s sp ->
   istate_matches t tm (estep s (eevent_of e) (oroute e)) o = true ->
   let g := match e with
-           | OMarket _ m => spec_market indep (sp (oroute e)) m (oi_price o)
+           | OMarket _ _ m => spec_market indep (sp (oroute e)) m (oi_price o)
            | OFill f => spec_fill (sp (oroute e)) f
            end in
   (verdict t tr g o = 0%N \/ verdict t tr g o = 1%N) /\
@@ -444,11 +444,11 @@ Proof.
   { unfold estep, eupd. rewrite route_eevent_of. fold i. rewrite N.eqb_refl. reflexivity. }
   rewrite Es in Hm. apply istate_matches_facts in Hm. destruct Hm as [Hpos Hprice].
   set (g := match e with
-            | OMarket _ m => spec_market indep (sp i) m (oi_price o)
+            | OMarket _ _ m => spec_market indep (sp i) m (oi_price o)
             | OFill f => spec_fill (sp i) f
             end).
   assert (HJ : J indep tr i (istep (s i) (payload (eevent_of e))) g).
-  { unfold g. destruct e as [i0 m|f]; cbn [eevent_of payload istep] in *.
+  { unfold g. destruct e as [i0 rc m|f]; cbn [eevent_of payload istep] in *.
     - apply (J_market indep tr tm i (s i) (sp i) m (oi_price o) Htr Etr); [|apply HG|exact Hprice].
       intros Ei. specialize (Hl1 Ei). destruct m; exact Hl1 || exact I.
     - apply (J_fill indep tr i (s i) (sp i) f Htr); [|apply HG].
@@ -494,14 +494,14 @@ Qed.
 Lemma l1_times_wf_Forall evs : l1_times_wf evs = true -> Forall ev_l1_wf evs.
 Proof.
   unfold l1_times_wf. rewrite forallb_forall. intros H. apply Forall_forall. intros e Hin.
-  specialize (H e Hin). destruct e as [i [| t lt b a|]|f]; cbn [ev_l1_wf]; try exact I.
+  specialize (H e Hin). destruct e as [i rc [| t lt b a|]|f]; cbn [ev_l1_wf]; try exact I.
   apply Z.eqb_eq in H. symmetry. exact H.
 Qed.
 
 Lemma wf_case_fills n evs obs fin fr : wf_case (CEngine n evs obs fin fr) = true -> Forall ev_fill_wf evs.
 Proof.
   cbn [wf_case]. rewrite forallb_forall. intros H. apply Forall_forall. intros e Hin.
-  specialize (H e Hin). destruct e as [i m|f]; cbn [ev_fill_wf]; [exact I|].
+  specialize (H e Hin). destruct e as [i rc m|f]; cbn [ev_fill_wf]; [exact I|].
   cbn [wf_event] in H. split_andb H. apply negb_true_iff, Qle_bool_false in H2. exact H2.
 Qed.
 
